@@ -66,13 +66,16 @@ extern double g_ratio_val;
 
 /* IEEE-754 binary64 division of two converted 64-bit unsigned integers.  The body is the division itself; the contract (the
  * range facts the callers' proofs need: the quotient is a number in [0, 2^64]; a numerator below 60 * 10^6 divided by 10^6
- * gives a double below 60, one of at least 10^7 a double >= 10, one below 9.5 * 10^6 a double < 9.5) is PROVED on that body by its own obligation group and then used in place of the divider. */
+ * gives a double below 60; on which side of 9.5, 9.95, ... 10 the quotient by 10^6 lies) is PROVED on that body by its own obligation group and then used in place of the divider. */
 double c18_fdiv(uint64_t num, uint64_t den)
 __CPROVER_requires(1)
 __CPROVER_ensures(den != 0 ==> (__CPROVER_return_value >= 0.0 && __CPROVER_return_value <= 18446744073709551616.0))
 __CPROVER_ensures((den == 1000000 && num < 60000000) ==> __CPROVER_return_value < 60.0)
-__CPROVER_ensures((den == 1000000 && num >= 10000000) ==> __CPROVER_return_value >= 10.0)
-__CPROVER_ensures((den == 1000000 && num < 9500000) ==> __CPROVER_return_value < 9.5)
+/* on which side of the rounding thresholds 10 - 0.5 * 10^-P (P = 0..6) of c18_put_double the quotient lies */
+#define C18_FDIV_SIDE(N, C) ((den == 1000000 && num < (N)) ==> __CPROVER_return_value < (C)) && ((den == 1000000 && num >= (N)) ==> __CPROVER_return_value >= (C))
+__CPROVER_ensures(C18_FDIV_SIDE(9500000, 9.5) && C18_FDIV_SIDE(9950000, 9.95) && C18_FDIV_SIDE(9995000, 9.995) && C18_FDIV_SIDE(9999500, 9.9995))
+__CPROVER_ensures(C18_FDIV_SIDE(9999950, 9.99995) && C18_FDIV_SIDE(9999995, 9.999995) && C18_FDIV_SIDE(10000000, 10.0))
+__CPROVER_ensures((den == 1000000 && num < 10000000) ==> __CPROVER_return_value < 9.9999995)
 __CPROVER_assigns()
 {
   return (double)num / (double)den;
